@@ -28,4 +28,63 @@ package estargz
 //@   props C04
 //@ func Open
 //@   props C04
+//@   requires sr != nil
 //@   requires forall i int :: 0 <= i && i < len(opt) ==> opt[i] != nil
+//@ func parseTOC
+//@   props C04
+//@   requires sr != nil && (tocOff >= 0 ==> 0 <= tocSize && tocSize <= srSize(sr))
+//@   ensures[C04] err == nil ==> result0 != nil && result0.toc != nil && result0.sr != nil
+
+// Well-formedness of an opened Reader: what initFields establishes and every accessor relies on.
+//@ pure entsOK(s []*TOCEntry, n int) bool = forall j int :: 0 <= j && j < len(s) ==> s[j] != nil && 0 <= s[j].chunkTopIndex && s[j].chunkTopIndex < n
+//@ pure wfR(r *Reader) bool = r.toc != nil && r.m != nil && r.chunks != nil && r.sr != nil && (forall k string :: k in r.m ==> entOK(r, r.m[k])) && entsOK(r.toc.Entries, len(r.toc.Entries)) && (forall k string :: k in r.chunks ==> len(r.chunks[k]) >= 1 && entsOK(r.chunks[k], len(r.toc.Entries)))
+//@ pure entOK(r *Reader, e *TOCEntry) bool = e != nil && 0 <= e.chunkTopIndex && ((e.Type == "reg" || e.Type == "chunk") ==> e.chunkTopIndex < len(r.toc.Entries))
+//@ pure wfFR(fr *fileReader) bool = fr.r != nil && wfR(fr.r) && len(fr.ents) >= 1 && entsOK(fr.ents, len(fr.r.toc.Entries))
+
+//@ pure wfM(r *Reader) bool = r.m != nil && (forall k string :: k in r.m ==> r.m[k] != nil)
+//@ func (r *Reader) getSource
+//@   props C04
+//@   terminates
+//@   requires wfM(r) && ent != nil
+//@   ensures[C04] err == nil ==> result0 != nil
+//@   ensures[C04] err == nil && old(wfR(r)) && old(entOK(r, ent)) ==> entOK(r, result0)
+//@ func (r *Reader) Lookup
+//@   props C04
+//@   requires wfR(r)
+//@   ensures[C04] ok ==> entOK(r, e)
+//@ func (r *Reader) getChunks
+//@   props C04
+//@   requires wfR(r) && entOK(r, ent) && ent.Type == "reg"
+//@   ensures[C04] len(result) >= 1 && entsOK(result, len(r.toc.Entries))
+//@ func (r *Reader) ChunkEntryForOffset
+//@   props C04
+//@   requires wfR(r)
+//@ func (r *Reader) newFileReader
+//@   props C04
+//@   requires wfR(r)
+//@   ensures[C04] result1 == nil ==> result0 != nil && wfFR(result0)
+//@ func (r *Reader) OpenFile
+//@   props C04
+//@   requires wfR(r)
+//@ func (fr *fileReader) ReadAt
+//@   props C04
+//@   requires wfFR(fr) && fr.r.decompressor != nil
+//@ func maxFooterSize
+//@   props C04
+//@ func parentDir
+//@   props C04
+//@ func (r *Reader) getOrCreateDir
+//@   props C04
+//@   decreases len(d)
+//@   requires wfM(r)
+//@   modifies r.m[*], heap("F:estargz.TOCEntry.children"), heap("F:estargz.TOCEntry.NumLink"), heap("M:map[string]*estargz.TOCEntry")
+//@   ensures[C04] result != nil && wfM(r)
+//@ func (r *Reader) initFields
+//@   props C04
+//@   requires r.toc != nil && r.sr != nil
+//@   loop 0 invariant[C04] 0 <= chunkTopIndex && chunkTopIndex <= max(rangeidx, 0)
+//@   loop 0 invariant[C04] forall j int :: 0 <= j && j <= rangeidx ==> r.toc.Entries[j] != nil
+//@   loop 0 invariant[C04] wfM(r) && r.chunks != nil
+//@   loop 0 invariant[C04] forall k string :: k in r.chunks ==> ref(r.chunks[k]) != ref(r.toc.Entries)
+//@   loop 1 invariant[C04] wfM(r)
+//@   loop 2 invariant[C04] -1 <= i && i < len(r.toc.Entries)
